@@ -159,7 +159,16 @@ class C16(Property):
             'three other exceptions are raised and captured first (ExceptionInfo and print_exception, either first) whose '
             'classes share module and bare name with the last one (nested in other classes / functions), share the '
             'qualified name across modules, are redefined, shadow a builtin, or are the same class object whose '
-            '__module__ / __qualname__ / __name__ is reassigned between the captures. First in the stream: an enumerated family of ~520 small '
+            '__module__ / __qualname__ / __name__ is reassigned between the captures. Round 5: the code\'s file name may end in '
+            '.pyc / .pyo / .PY / .pyw or in the letters c / o, be a pseudo or relative name, hold quotes, spaces, non-ASCII (module '
+            'files on disk may have decoy neighbours whose names differ in the suffix); recursion may go through one line with two call '
+            'sites (entries that differ in tb_lasti only), through a generator expression, through two lambdas on one line, a->b->a; the '
+            'entry points are called in every argument form (keywords, positional, file=None); failing calls may come first; exception '
+            'classes / objects may have unusual __bool__ / __len__ / __eq__ / __hash__; after the observations the caller edits every '
+            'dict, list and Callpoint it was handed and the reports are read again. Every text (t, r) is parsed two or three times, as '
+            'str and as bytes in turn, the caller editing the earlier result in between; a text may come after a history of earlier '
+            'from_string calls (the same text, texts sharing lines with it, failing calls). First in the stream: ~110 texts with '
+            'histories, then an enumerated family of ~850 small '
             'live cases over all of these dimensions; then all texts with <= 2 frames over the option alphabet; then '
             'seeded random texts (non-ASCII paths, quotes, frame-like fragments), adversarial mutations and random '
             'live cases. Non-trivial = (t) at least one frame and the text is in the statement\'s domain, (r) the '
